@@ -541,6 +541,13 @@ impl HashColumn {
 		if tables.ref_count.is_some() {
 			tables.get_ref_count().flush()?;
 		}
+		// Tables that are still being reindexed receive log writes as well.
+		for entry in &self.reindex.read().queue {
+			match entry {
+				ReindexEntry::Index(table) => table.flush()?,
+				ReindexEntry::RefCount(table) => table.flush()?,
+			}
+		}
 		Ok(())
 	}
 
